@@ -596,6 +596,13 @@ static void death_cb() {
   }
   on_sanitizer_death();
 }
+static void terminate_cb() {
+  if (g_rep && g_cur_ops) {
+    g_rep->current_case = case_text(*g_cur_ops);
+    g_rep->current_detail = "step " + std::to_string(g_cur_step) + (g_cur_step < g_cur_ops->size() ? " (" + op_text((*g_cur_ops)[g_cur_step]) + ")" : " (final destruction)");
+  }
+  on_terminate();
+}
 
 // Applies the sequence to the real objects and the model. Returns "" or "<class>: <detail> at step k (<op>)".
 static std::string run_ops(const std::vector<Op>& ops, Report& rep, Stats* out = nullptr) {
@@ -727,6 +734,7 @@ int main(int argc, char** argv) {
   Report rep; rep.property = "C12"; rep.tier = a.tier; rep.seed = a.seed; rep.out_path = a.out; rep.unit = a.unit.empty() ? "variant" : a.unit;
   install_report(&rep);
   g_rep = &rep;
+  std::set_terminate(terminate_cb);
 #if defined(__has_feature)
 #if __has_feature(address_sanitizer)
   __sanitizer_set_death_callback(death_cb);
